@@ -31,13 +31,19 @@ METHODS = ["oplus_self", "oplus_other", "ominus_self", "ominus_other", "boxplus"
 def strategy_(g):
     k = g.kind()
     s = g.scale()
-    return {
+    case = {
         "k": k,
         "m": g.choice(METHODS),
         "a": g.pose(k, s=s),
         "b": g.pose(k, s=g.choice([s, 1.0])),
         "pt": g.pose(R.POINT_OF[k], s=g.choice([s, 1.0])),
     }
+    if g.choice([False, False, False, True]):
+        # two poses a few units apart at a large common magnitude (georeferenced coordinates), any rotation difference
+        n = R.PDIM[k]
+        case["b"]["v"][:n] = [t + g.rnd.uniform(-3, 3) for t in case["a"]["v"][:n]]
+        case["pt"]["v"][:n] = [t + g.rnd.uniform(-3, 3) for t in case["a"]["v"][:n]]
+    return case
 
 
 def strategy(tier):
